@@ -59,7 +59,9 @@ macro_rules! impl_vec1view_for_ndarray {
 
             #[inline]
             fn try_as_slice(&self) -> Option<&[T]> {
-                self.as_slice_memory_order()
+                // only a view in standard (logical) order may be handed out as a slice; a
+                // contiguous but reversed view is in memory order, not in logical order
+                self.as_slice()
             }
 
             #[inline]
